@@ -48,7 +48,7 @@ theorem after_poll_tailed_eq_eligible_delivered (cfg : Cfg) (t : T) :
     failed `doPatternGlob` end the polling loop. -/
 theorem tailer_shape :
     Generated.Tailer.ignore = "filepath.Abs(pathname); if err != nil {return true}; os.Stat(absPath); if err != nil {return true}; if fi.Mode().IsDir() {return true}; return t.ignoreRegexPattern != nil && t.ignoreRegexPattern.MatchString(fi.Name())" ∧
-    Generated.Tailer.tailPath = "t.logstreamsMu.Lock(); defer t.logstreamsMu.Unlock(); if _, ok := t.logstreams[pathname]; ok {return nil}; logstream.New(t.ctx, &t.wg, t.logstreamPollWaker, pathname, t.oneShot); if err != nil {return err}; t.logstreams[pathname] = l; t.wg.Add(1); go {defer t.wg.Done(); for range l.Lines() {t.lines <-}; t.logstreamsMu.Lock(); delete(t.logstreams, pathname); logCount.Add(-1); t.logstreamsMu.Unlock()}; logCount.Add(1); return nil" ∧
+    Generated.Tailer.tailPath = "t.logstreamsMu.Lock(); defer t.logstreamsMu.Unlock(); if _, ok := t.logstreams[pathname]; ok {return nil}; logstream.New(t.ctx, &t.wg, t.logstreamPollWaker, pathname, t.oneShot); if err != nil {return err}; t.logstreams[pathname] = l; t.wg.Add(1); go {defer t.wg.Done(); for range l.Lines() {t.lines <-}; t.logstreamsMu.Lock(); if !t.oneShot {delete(t.logstreams, pathname)}; logCount.Add(-1); t.logstreamsMu.Unlock()}; logCount.Add(1); return nil" ∧
     Generated.Tailer.doPatternGlob = "filepath.Glob(pattern); if err != nil {return err}; for range matches {if t.Ignore(pathname) {continue}; filepath.Abs(pathname); if err != nil {continue}; if err := t.TailPath(absPath); err != nil {}}; return nil" ∧
     Generated.Tailer.pollLogPattern = "if err := t.doPatternGlob(pattern); err != nil {}; if t.logPatternPollWaker == nil {return }; t.wg.Add(1); go {defer t.wg.Done(); <-t.initDone; if t.oneShot {return }; for  {select {case <-t.ctx.Done(): {return } case <-t.logPatternPollWaker.Wake(): {if err := t.doPatternGlob(pattern); err != nil {}}}}}" := ⟨rfl, rfl, rfl, rfl⟩
 
